@@ -479,7 +479,8 @@ func (e *knownEngine) cellFlagUnderWitness(addr ssa.Value, want bool) bool {
 				continue
 			}
 			stores++
-			if !e.cellAssignmentJustified(st.Block(), views, want, 0, map[*ssa.BasicBlock]bool{}) {
+			if !e.cellAssignmentJustified(st.Block(), views, want, 0, map[*ssa.BasicBlock]bool{}) &&
+				!e.cellAssignmentJustifiedAfter(st, views, want) {
 				return false
 			}
 		}
@@ -695,4 +696,67 @@ func c05FlagMonotone(c *Ctx, fns []*ssa.Function) {
 		}
 	}
 	c.Floor("unknown.flag flags", n, 3, "known/isKnown flags of the object, for and template evaluators")
+}
+
+// cellAssignmentJustifiedAfter: the flag is given the value first and the justification follows —
+// `was := flag; flag = false; if !was { return }; diags = append(diags, <error>)`. Every path from
+// the store to a return of its function records an error, or leaves by an edge on which the value
+// the flag had BEFORE the store (a load that precedes the store in its block) is shown to have been
+// the assigned value already.
+func (e *knownEngine) cellAssignmentJustifiedAfter(st *ssa.Store, views map[ssa.Value]bool, want bool) bool {
+	// loads of the cell that precede the store in its block
+	before := map[ssa.Value]bool{}
+	for _, ins := range st.Block().Instrs {
+		if ins == ssa.Instruction(st) {
+			break
+		}
+		if ld, ok := ins.(*ssa.UnOp); ok && ld.Op == token.MUL && views[ld.X] {
+			before[ld] = true
+		}
+	}
+	seen := map[*ssa.BasicBlock]bool{}
+	var fwd func(b *ssa.BasicBlock, first bool) bool
+	fwd = func(b *ssa.BasicBlock, first bool) bool {
+		if !first {
+			if seen[b] {
+				return true
+			}
+			seen[b] = true
+			if errorEvidence(b) {
+				return true
+			}
+		}
+		if _, isRet := b.Instrs[len(b.Instrs)-1].(*ssa.Return); isRet {
+			return false
+		}
+		if len(b.Succs) == 0 {
+			return true // panic
+		}
+		if iff, ok := lastIf(b); ok && b.Succs[0] != b.Succs[1] {
+			cond, inv := stripBool(iff.Cond)
+			if before[cond] {
+				for i, su := range b.Succs {
+					onTrue := (i == 0) != inv
+					if onTrue == want {
+						continue // the flag already had this value
+					}
+					if !fwd(su, false) {
+						return false
+					}
+				}
+				return true
+			}
+		}
+		for _, su := range b.Succs {
+			if !fwd(su, false) {
+				return false
+			}
+		}
+		return true
+	}
+	// an error recorded later in the store's own block counts as well
+	if errorEvidence(st.Block()) {
+		return true
+	}
+	return fwd(st.Block(), true)
 }
